@@ -66,7 +66,11 @@ class QG:
             if sc < 0.4: q[rng.choice(["shortCircuit", "ShortCircuit", "short_circuit", "shortcircuit"])] = True
             elif sc < 0.5: q["shortCircuit"] = False
             return q
-        return {"not": self.query(depth - 1, set(scope), facts) if rng.random() < 0.95 else {}}
+        z = rng.random()
+        if z < 0.12:
+            t = {"t": "throw"}
+            return {"not": {"code": js_of_tmpl(t), "verif_tmpl": t}}     # an error under `not` is an error, not "yields nothing"
+        return {"not": self.query(depth - 1, set(scope), facts) if z < 0.95 else {}}
 
 def gen_case(rng, thorough):
     parent = rng.random() < 0.4
